@@ -19,7 +19,7 @@ THEOREMS = {"C12": ["strip_path_spec", "strip_path_basename", "unquote_quote", "
                     "apply_patch_unified_reject_reparses", "apply_patch_context_reject_reparses",
                     "apply_patch_unified_reject_reparses_checked", "apply_patch_context_reject_reparses_checked",
                     "hdr_ok_simple", "wf_hunk_shift", "wf_hunk_c_shift", "read_back_names", "ex_unified_reject",
-                    "ex_context_reject", "ex_runs", "blank_name_not_read_back", "negative_start_not_read_back"],
+                    "ex_context_reject", "ex_runs", "blank_name_not_read_back", "negative_start_stops_at_zero"],
             "C14": ["split_lines_roundtrip", "split_lines_wf", "terminator_keep", "terminator_lf", "terminator_crlf",
                     "final_newline_iff", "apply_output_lines"],
             "C20": ["define_eval"]}
@@ -404,6 +404,21 @@ def run_c13(run_, rng, tier, exe):
         keep = (h1["ns"] - 1 if h1["nc"] else h1["ns"]) + h1["nc"]
         s0["tree"]["t"] = ("R", 0o644, emit.file_bytes(b_[:keep] + gen.drift(rng, b_[keep:], strength=0.9)))
         scns.append(s0)
+    # diffs without context that remove many lines at the top and then change a line close below: the new start of the later
+    # hunk is smaller than the number of lines removed before it
+    for _ in range(40 if q else 600):
+        k = rng.randint(2, 6)
+        a = [("%s%d" % (gen.rand_text(rng, True), i_), "L") for i_ in range(k + rng.randint(2, 5))]
+        ops = [("-", l) for l in a[:k]] + [(" ", l) for l in a[k:]]
+        j = k + rng.randint(0, min(1, len(a) - k - 1))
+        ops[j] = ("-", a[j]); ops.insert(j + 1, ("+", (a[j][0] + "x", "L")))
+        hs = gen.hunks_from_ops(ops, 0)
+        fmt = rng.choice(["unified", "context", "git"])
+        text = emit.emit_unified("a/f", "b/f", hs) if fmt == "unified" else emit.emit_context("a/f", "b/f", hs) if fmt == "context" else emit.emit_git("f", "f", hs, kind="change")
+        tgt = list(a); tgt[j] = ("drifted", "L")
+        sec = dict(path="f", newpath="f", a=a, b=[l for o, l in ops if o != "-"], text=text, fmt=fmt, kind="change", hs=hs, ops=ops, mode_old=None, mode_new=None, w=0)
+        s0 = dict(tree={"f": ("R", 0o644, emit.file_bytes(tgt)), "p.diff": ("R", 0o644, text)}, opts=dict({"p": 1, "i": "p.diff", "f": 1}, **rng.choice([{}, {"rf": "context"}, {"rf": "unified"}])), umask=0o022, secs=[sec])
+        scns.append(s0)
     # targets that are refused as a whole (read-only under --read-only=fail, not a regular file): every hunk goes to the reject
     # file, in the form asked for
     import l2props
@@ -454,7 +469,7 @@ def run_c13(run_, rng, tier, exe):
             if skipped:
                 exp.append(h)                       # nothing was applied: every hunk is a reject, none is shifted
             elif m is not None and m.group(2) == "FAILED":
-                exp.append(dict(h, os=h["os"] + shift, ns=h["ns"] + shift))
+                exp.append(dict(h, os=max(0, h["os"] + shift), ns=max(0, h["ns"] + shift)))     # (never below zero: nobody reads a negative number back)
             else:
                 shift += h["nc"] - h["oc"]
         got = parse_hunks_field(pi[j]) if pi[j].startswith("PATCH") else None
